@@ -46,7 +46,8 @@ def make_measure(kind, p, cache="cold"):
         # dtype regime: an integer-valued mean written as an integer array (see props/_cond.py)
         as_int = bool(p.get("mu_int_dtype")) and bool(np.all(np.asarray(p["mu"]) == np.round(np.asarray(p["mu"]))))
         mu = jnp.asarray(np.asarray(p["mu"]).astype(np.int64)) if as_int else J(p["mu"])
-        m = pdf.GaussianPDF(Sigma=J(p["Sigma"]), mu=mu)
+        # class mixture: an exactly diagonal p(x) handed over as a GaussianDiagPDF (see props/_cond.py)
+        m = (pdf.GaussianDiagPDF if p.get("as_diag_class") else pdf.GaussianPDF)(Sigma=J(p["Sigma"]), mu=mu)
     elif kind == "diag_pdf":
         m = pdf.GaussianDiagPDF(Sigma=J(p["Sigma"]), mu=J(p["mu"]))
     else:
